@@ -102,13 +102,15 @@ func (v *variablesDefaultValueExtractionVisitor) EnterVariableDefinition(ref int
 		return
 	}
 
-	valueBytes, err := v.operation.ValueToJSON(v.operation.VariableDefinitionDefaultValue(ref))
+	defaultValue := v.operation.VariableDefinitionDefaultValue(ref)
+	valueBytes, err := v.operation.ValueToJSON(defaultValue)
 	if err != nil {
 		return
 	}
 
+	// a single value is coerced to a list of that value; null is null, not a list with a null item
 	isListVariable := v.operation.TypeIsList(v.operation.VariableDefinitions[ref].Type)
-	if isListVariable && len(valueBytes) > 0 && valueBytes[0] != '[' {
+	if isListVariable && defaultValue.Kind != ast.ValueKindNull && len(valueBytes) > 0 && valueBytes[0] != '[' {
 		listWraps := v.operation.TypeNumberOfListWraps(v.operation.VariableDefinitions[ref].Type)
 		for range listWraps {
 			valueBytes = append([]byte{'['}, append(valueBytes, ']')...)
